@@ -31,6 +31,14 @@ class Unwind(Exception):
         self.k = k
 
 
+class UnwindBase(BaseException):
+    """Stands for KeyboardInterrupt / SystemExit / CancelledError: leaves the with-blocks without being an Exception."""
+
+    def __init__(self, k):
+        super().__init__(k)
+        self.k = k
+
+
 def arith(what):
     h = h1(np.array([0.5, 0.5]), np.array([0.0, 1.0]))
     try:
@@ -93,7 +101,7 @@ class ThreadExec:
                         self.r.put(("ok",))
                         self.level(depth + 1)
                     self.r.put(("ok",))
-                except Unwind as u:
+                except (Unwind, UnwindBase) as u:
                     if u.k > 1:
                         u.k -= 1
                         raise
@@ -101,7 +109,7 @@ class ThreadExec:
             elif op == "exit":
                 return
             elif op == "raise":
-                raise Unwind(cmd[1])
+                raise (UnwindBase(cmd[1]) if len(cmd) > 2 and cmd[2] == "base" else Unwind(cmd[1]))
             elif op == "finish":
                 return
             elif op == "kill":
@@ -142,7 +150,7 @@ class TaskExec:
                         self.r.put(("ok",))
                         await self.level(depth + 1)
                     self.r.put(("ok",))
-                except Unwind as u:
+                except (Unwind, UnwindBase) as u:
                     if u.k > 1:
                         u.k -= 1
                         raise
@@ -150,7 +158,7 @@ class TaskExec:
             elif op == "exit":
                 return
             elif op == "raise":
-                raise Unwind(cmd[1])
+                raise (UnwindBase(cmd[1]) if len(cmd) > 2 and cmd[2] == "base" else Unwind(cmd[1]))
             elif op == "finish":
                 return
             else:
@@ -187,7 +195,7 @@ def run_path(kind, path, names, root):
             elif a == "Exit":
                 world[args[0]].send(("exit",))
             elif a == "Raise":
-                world[args[0]].send(("raise", args[1]))
+                world[args[0]].send(("raise", args[1], args[2] if len(args) > 2 else "exc"))
             elif a == "SetDirect":
                 world[args[0]].send(("set", args[1]))
             elif a == "Spawn":
